@@ -241,6 +241,16 @@ def run(ctx):
             spec["zetas"] = [float(v) for v in 0.2 + 0.8 * rng.random(K + 4)]
             ks = [11 * pt, 11 * pt + 1, 12 * pt + 1, 14 * pt]
             ctx.count("restarts_from_logs_of_more_than_ten_pages", len(ks))
+        if i < nrandom and i % 9 in (2, 7):
+            # directed: a run ended by max_time = K x dt with a step that is not a binary fraction, EVERY interruption point (the
+            # restarted clock accumulates a dt inferred from two logged times: both clocks have to stop on the same step)
+            spec["dt"] = float([0.1, 0.7][i % 9 == 7])
+            spec["t0"] = 0.0
+            spec["rule"] = "max_time"
+            spec["K"] = K = int(rng.integers(10, 15))
+            spec["zetas"] = [float(v) for v in 0.2 + 0.8 * rng.random(K + 4)]
+            ks = range(1, K)
+            ctx.count("restarts_of_runs_ended_by_max_time_with_non_dyadic_dt", K - 1)
         for k in ks:
             a = dict(spec, k=int(k))
             ok, obs, req, text = oracle_restart(a)
